@@ -20,6 +20,7 @@ import PubgrubProofs.Protocol
 import PubgrubProofs.Freshness
 import PubgrubProofs.NonEmpty
 import PubgrubProofs.CanonInstances
+import PubgrubProofs.RangeAnyOrder
 
 namespace Pubgrub.C12
 open Pubgrub Pubgrub.Solver VersionSet
@@ -87,5 +88,26 @@ theorem C12_canonicalEmpty_range {T : Type} [LinearOrder T] [DenselyOrdered T] [
 theorem C12_canonicalEmpty_bitset (n : Nat) :
     @CanonicalEmpty (BitSet n) (Fin n) (BitSet.instVersionSetBitSetFin n) (BitSet.lawful n) :=
   BitSet.canonicalEmpty n
+
+/-! ### `Range V` over ANY linear order (the discrete `u32`, `SemanticVersion` included), where `Range` is
+not a `LawfulVersionSet`: pulled back along the embedding into `Range (V ×ₗ ℚ)` (RangeHom, HomSolver,
+RangeAnyOrder) -/
+section AnyOrder
+variable {P V M Pr E : Type} [DecidableEq P] [LinearOrder V] [LE Pr] [DecidableLE Pr]
+
+theorem C12_range_choose_nonempty (W : World P (Range V) V M) (hW : W.RangesWF) (debug : Bool) (fuel : Nat)
+    (root : P) (rv : V) (s : SolverState P (Range V) V M Pr) (p : P) (set : Range V)
+    (h : Reachable (E := E) W debug fuel root rv (s, .chooseVersion p set)) :
+    set ≠ Range.empty :=
+  range_choose_nonempty W hW debug fuel root rv s p set h
+
+theorem C12_range_requests_wf (W : World P (Range V) V M) (hW : W.RangesWF) (debug : Bool) (fuel : Nat)
+    (root : P) (rv : V) (s : SolverState P (Range V) V M Pr) (p : P) (set : Range V)
+    (h : Reachable (E := E) W debug fuel root rv (s, .chooseVersion p set) ∨
+         Reachable (E := E) W debug fuel root rv (s, .prioritize p set)) :
+    Range.WF set :=
+  range_requests_wf W hW debug fuel root rv s p set h
+
+end AnyOrder
 
 end Pubgrub.C12
